@@ -39,7 +39,11 @@ func Budget(n int) int { return 64 + 16*n }
 
 // Parse runs parser.Parse on a private copy of src.
 func Parse(src []byte, v *version.Version, withCallback bool) (res Result) {
-	buf := append([]byte(nil), src...)
+	return parseNoCopy(append([]byte(nil), src...), src, v, withCallback)
+}
+
+// parseNoCopy parses buf (which holds a copy of src) and compares it with src afterwards.
+func parseNoCopy(buf, src []byte, v *version.Version, withCallback bool) (res Result) {
 	budget := Budget(len(src))
 	verifhook.Tick = func() {
 		res.Steps++
